@@ -3,6 +3,7 @@
 From Coq Require Import List NArith Bool.
 From Coq.Strings Require Import Byte.
 From Connect Require Import Bytes Generated GoIO Envelope Cut.
+From Connect Require Plumbing.
 Import ListNotations.
 Local Open Scope N_scope.
 
@@ -98,3 +99,9 @@ Theorem decompress_bound : forall (d : bytes -> option bytes) max data out,
   0 < max -> decompress_limited d max data = inl out -> len out <= max.
 Proof. exact decompress_bound_lemma. Qed.
 Print Assumptions decompress_bound.
+
+(* every reader the code builds receives the configured read limit, buffer pool and codec: extracted from every composite literal in the source by the translator on each run *)
+Theorem configuration_reaches_the_readers :
+  plumbing_envelope_reader_complete = true /\ plumbing_connect_unary_unmarshaler_complete = true.
+Proof. exact Plumbing.readers_receive_configuration. Qed.
+Print Assumptions configuration_reaches_the_readers.
